@@ -259,6 +259,18 @@ def run(run):
                 continue
             run.holds("R3", key, "", site)
             n, conds = ent[0]
+            # whether an operand's implicit memory read becomes an explicit Load depends on THAT operand only
+            from .lib import bindsrc as B
+            roots_ = B.bodies(F, fn)
+            foreign = set()
+            for cd in conds:
+                if cd[0] != "if":
+                    continue
+                for src, how in B.sources(F, roots_, cd[1]):
+                    for y in B.walk_with_closures(F, src):
+                        if y.get("k") == "Field" and y.get("fn") in ("input0", "input1", "input2") and y["fn"] != slot:
+                            foreign.add(y["fn"])
+            run.check("R3", key + "|depends-on-own-operand-only", not foreign, "the explicit load for %s is created only under a condition on %s: an implicit memory read of this operand can be skipped (two reads of one address with different sizes are two reads)" % (slot, sorted(foreign)), F.loc(n))
             # the rewritten slot is the same slot, and the temp names differ per slot
             temp = sy.ev(n["a"][1], env)
             writes = [x for x in T.walk(fn["body"]) if T.is_call(x, ("clone_from",)) or x.get("k") == "Assign"]
